@@ -131,13 +131,19 @@ Proof.
   - injection H as <- _ <-; auto.
 Qed.
 
+Ltac noret He :=
+  exfalso; inv_binds He;
+  try (match type of He with match ?x with _ => _ end = _ => destruct x; [|discriminate He] end; inv_binds He);
+  discriminate He.
+
 Ltac register_tac H name s :=
   cbn [authorised]; inv_binds H;
   match goal with E : check_owner_witness _ _ = Halt _ |- _ =>
     let Hw := fresh "Hw" in let Hl := fresh "Hl" in
     apply check_owner_witness_halt in E as [Hw Hl];
-    match goal with E2 : is_valid ?ow = true |- _ => destruct ow; [|discriminate E2] end;
-    cbn [akey default] in Hw; rewrite Hw; cbn [andb]
+    match goal with E2 : is_valid ?ow = true |- _ => destruct ow; [|cbn in E2; discriminate E2] end;
+    match type of Hw with context [akey (Some ?b)] => change (akey (Some b)) with b in Hw end;
+    rewrite Hw; cbn [andb]
   end;
   match goal with E : (if (2 <? ?l)%nat then _ else _) = Halt _ |- _ =>
     change l with (level name) in *; destruct (2 <? level name)%nat; [|reflexivity];
@@ -158,10 +164,10 @@ Proof.
   - (* RegisterTLD *) left. cbn [authorised]. inv_binds H. cmte. exact Hc.
   - (* Transfer *)
     inv_binds H.
-    match goal with E : get_ns_with_key _ _ _ = Halt ?n |- _ => apply get_ns_with_key_halt in E as [Hn _]; rename n into ns0 end.
+    match goal with E : get_ns_with_key _ _ _ = Halt ?n |- _ => apply (get_ns_with_key_halt hash valid_name valid_data str_ok) in E as [Hn _]; rename n into ns0 end.
     match goal with E : witness _ _ = Halt _ |- _ => apply witness_halt in E as [-> Hl] end.
     cbn [authorised]. unfold NNS.get_ns. rewrite Hn. unfold owner_wit.
-    destruct (ns_owner ns0) as [o|]; [|discriminate Hl]. cbn [akey default] in *.
+    destruct (ns_owner ns0) as [o|]; [|discriminate Hl]. change (akey (Some o)) with o in *.
     destruct (wit_of c o); [left; reflexivity|]. cbn [negb] in H. injection H as <- <- <-. right. auto.
   - (* Renew *)
     left. cbn [authorised]. inv_binds H. frag. adm. unfold NNS.get_ns. rewrite Hn. exact Ha.
@@ -169,7 +175,7 @@ Proof.
     left. cbn [authorised]. inv_binds H.
     match goal with E : NNS.get_frag_ns _ _ _ _ _ = Halt ?n |- _ => rename n into ns0 end. frag. own.
     unfold NNS.get_ns. rewrite Hn. unfold owner_wit.
-    destruct (ns_owner ns0) as [o|]; [|discriminate Hl]. cbn [akey default] in Hw. rewrite Hw. cbn [andb].
+    destruct (ns_owner ns0) as [o|]; [|discriminate Hl]. change (akey (Some o)) with o in Hw. rewrite Hw. cbn [andb].
     destruct admin as [a|]; [|reflexivity].
     match goal with E : obind (witness _ _) _ = Halt _ |- _ => inv1 E;
       match goal with E' : witness _ _ = Halt _ |- _ => apply witness_halt in E' as [-> _] end;
@@ -212,15 +218,15 @@ Proof.
     + (* Register halting is authorised *)
       exfalso. assert (Hx : authorised c s (Register name owner email refresh retry expire ttl) = true); [|congruence].
       clear Ha. register_tac He name s.
-    + exfalso. inv_binds He. discriminate He.
+    + noret He.
     + eauto.
-    + exfalso. inv_binds He. discriminate He.
-    + exfalso. inv_binds He. discriminate He.
-    + exfalso. inv_binds He. inv1 He. discriminate He.
-    + exfalso. inv_binds He. destruct (records s !! _); [|discriminate He]. inv1 He. discriminate He.
-    + exfalso. inv_binds He. discriminate He.
-    + exfalso. inv_binds He. discriminate He.
-    + exfalso. inv_binds He. discriminate He.
+    + noret He.
+    + noret He.
+    + noret He.
+    + noret He.
+    + noret He.
+    + noret He.
+    + noret He.
   - auto.
 Qed.
 
